@@ -46,7 +46,10 @@ def confirm(src, name):
 def run(name, pids, tier='quick'):
     dst = os.path.join(VERIF, 'seeded', name)
     rc, o = sh('git -C /repo status --porcelain'); assert o.strip() == '', '/repo not clean: ' + o
-    rc, o = sh('git -C /repo apply %s' % os.path.join(dst, 'patch.diff')); assert rc == 0, o
+    rc, o = sh('git -C /repo apply %s' % os.path.join(dst, 'patch.diff'))
+    if rc != 0:
+        rc, o = sh('git -C /repo apply --3way %s && git -C /repo reset -q' % os.path.join(dst, 'patch.diff'))
+    assert rc == 0, o
     res = {}
     try:
         for pid in pids:
